@@ -198,3 +198,55 @@ def obligations(fnode):
                         isinstance(val.slice, ast.Name) and okk and val.slice.id == key.right.id
                     out.append(("write into the module-level symbol table at line %d binds 'a<i>' to the i-th parameter symbol" % n.lineno, bool(okk and okv), n.lineno))
     return out
+
+
+def module_state_obligations(tree):
+    """F5: no function mutates a module-level container other than the symbol table (covered by F3): a store `NAME[...] = ...`, an augmented assignment, a
+    mutating method call (`append`, `add`, `update`, `setdefault`, `pop`, `clear`, `extend`, `insert`, `remove`) on, or a `global NAME` rebinding of, a name
+    that is assigned at module level makes a later call depend on what earlier calls did.  Returns [(function, description, ok, line)]."""
+    top = {}
+    for n in tree.body:
+        if isinstance(n, ast.Assign):
+            for t in n.targets:
+                if isinstance(t, ast.Name):
+                    top[t.id] = n.lineno
+        elif isinstance(n, ast.AnnAssign) and isinstance(n.target, ast.Name):
+            top[n.target.id] = n.lineno
+    MUT = {"append", "add", "update", "setdefault", "pop", "clear", "extend", "insert", "remove", "popitem", "discard"}
+    out = []
+
+    def funcs(body, prefix=""):
+        for n in body:
+            if isinstance(n, ast.FunctionDef):
+                yield prefix + n.name, n
+            elif isinstance(n, ast.ClassDef):
+                yield from funcs(n.body, prefix + n.name + ".")
+    for name, f in funcs(tree.body):
+        local = set(a.arg for a in f.args.args + f.args.kwonlyargs)
+        globs = set()
+        for n in ast.walk(f):
+            if isinstance(n, ast.Global):
+                globs |= set(n.names)
+        for n in ast.walk(f):
+            if isinstance(n, ast.Name) and isinstance(n.ctx, ast.Store) and n.id not in globs:
+                local.add(n.id)
+        bad = []
+        for n in ast.walk(f):
+            tgt = None
+            if isinstance(n, (ast.Subscript, ast.Attribute)) and isinstance(n.ctx, (ast.Store, ast.Del)):
+                b = n
+                while isinstance(b, (ast.Subscript, ast.Attribute)):
+                    b = b.value
+                if isinstance(b, ast.Name):
+                    tgt = b.id
+            elif isinstance(n, ast.Call) and isinstance(n.func, ast.Attribute) and n.func.attr in MUT and isinstance(n.func.value, ast.Name):
+                tgt = n.func.value.id
+            elif isinstance(n, ast.Name) and isinstance(n.ctx, ast.Store) and n.id in globs:
+                tgt = n.id
+            if tgt is not None and tgt in top and tgt not in local and tgt not in ("sympy_locs", "locs"):
+                bad.append((tgt, n.lineno))
+        for tgt, line in sorted(set(bad)):
+            out.append((name, "function %s changes the module-level object '%s' (line %d): its result can depend on earlier calls in the same process" % (name, tgt, line), False, line))
+        if not bad:
+            out.append((name, "no module-level container other than the symbol table is written", True, f.lineno))
+    return out
